@@ -320,6 +320,11 @@ def scope_cases(draw, cap):
         v = draw(st.one_of(st.integers(1, min(kmax, 2000)), st.integers(1, min(kmax, 6))))
     want_in, want_out = draw(st.sampled_from([(True, True)] * 4 + [(True, False), (False, True)]))
     pre = [draw(gen.input_row(spec)) for _ in range(draw(st.sampled_from([0, 0, 1, 2])))]
+    if draw(st.integers(0, 7)) == 0:
+        # an input variable on a descending scale (minimum > maximum): the grid still runs from minimum to maximum
+        iv = draw(st.sampled_from(spec["inputs"]))
+        if not iv.get("lock_range"):
+            iv["min"], iv["max"] = iv["max"], iv["min"]
     return {"spec": spec, "pre": pre, "exporter_first": draw(st.booleans()), "via_file": draw(st.integers(0, 4)) == 0,
             "retext": draw(st.integers(0, 3)) == 0,
             "scope": scope, "v": v, "d": draw(st.sampled_from([0, 1, 2, 3, 3, 3, 4, 6, 9])),
@@ -349,7 +354,9 @@ def long_lock_previous_cases(draw, cap):
                         "rules": [{"ante": {"var": "A", "hedges": [], "term": gen.TERM_NAMES[i]},
                                    "cons": [{"var": "Y", "hedges": [], "term": gen.TERM_NAMES[i]}], "weight": None,
                                    "enabled": True, "tight": False} for i in range(k)]}]}
-    v = draw(st.integers(1025, min(cap, 2000)))
+    # just above 1024 rows, or (one table in four) just above 4096 rows: any internal batching must be invisible
+    v = draw(st.one_of(st.integers(1025, min(cap, 2000)), st.integers(1025, min(cap, 2000)),
+                       st.integers(1025, min(cap, 2000)), st.integers(4097, 4400)))
     return {"spec": spec, "pre": [], "exporter_first": False, "scope": "EachVariable", "v": v, "d": 3, "sep": " ",
             "headers": True, "inputs": True, "outputs": True}
 
